@@ -23,10 +23,11 @@ enum Api {
   A_SELF,      // task schedules into its own (concurrent) set
   A_NESTED,    // task in a nested set created inside a task
   A_ASYNC,     // dispenso::async(set, ...)
+  A_THEN,      // future.then(f, set)
   A_NAPI
 };
 static const char* apiName(int a) {
-  static const char* n[] = {"?", "schedule", "schedule-fq", "bulk", "bulk-fq", "self-schedule", "nested", "async"};
+  static const char* n[] = {"?", "schedule", "schedule-fq", "bulk", "bulk-fq", "self-schedule", "nested", "async", "then"};
   return a > 0 && a < A_NAPI ? n[a] : "?";
 }
 enum SetKind { K_TS = 0, K_CTS_HEAVY = 1, K_CTS_LIGHT = 2 };
@@ -113,6 +114,11 @@ static void checkCancelAtStart(const Spec& s) {
   TagInfo& t = tag(s.tag);
   if (t.api == A_NESTED)
     return; // belongs to another set
+  // Futures and continuations bound to a set count towards its wait() (C02) but are not "task
+  // bodies scheduled to it" in C04's sense: skipping them would leave their futures never ready,
+  // and the library deliberately runs them. The cancellation oracle covers schedule/scheduleBulk.
+  if (t.api == A_ASYNC || t.api == A_THEN)
+    return;
   PerThread& p = g->pt[sim_tid()];
   uint64_t C = g->cancelReturnStep;
   bool inlineRun = s.tag >= p.submitLo && s.tag <= p.submitHi;
@@ -171,7 +177,20 @@ static void runBody(const Spec& s) {
       p.submitStep = sim_step();
       p.lastInlineFinish = 0;
       try {
-        g->cts->schedule(Body{k});
+        if (chance(1, 3)) {
+          // a continuation registered with the set from inside one of its tasks
+          tag(k.tag).api = A_THEN;
+          auto ready = dispenso::make_ready_future(1);
+          auto cont = ready.then(
+              [k](dispenso::Future<int>&&) {
+                runBody(k);
+                return 0;
+              },
+              *g->cts);
+          (void)cont;
+        } else {
+          g->cts->schedule(Body{k});
+        }
       } catch (Tagged& e) {
         g->delivered[(size_t)e.id]++;
       }
@@ -256,6 +275,22 @@ static void submit(Set& set, const Op& op, int throwPermille, bool allowKids, st
         set.scheduleBulk(specs.size(), [&specs](size_t i) { return Body{specs[i]}; });
       else
         set.scheduleBulk(specs.size(), [&specs](size_t i) { return Body{specs[i]}; }, dispenso::ForceQueuingTag());
+    } else if (op.kind == A_THEN && futs) {
+      // a continuation bound to the set: on a ready antecedent, or on one that completes later
+      Spec s = makeSpec(A_THEN, 0, 0, false);
+      s.nested = 0;
+      SubmitScope sc(s.tag, s.tag, false);
+      dispenso::Future<int> ante = chance(1, 2) ? dispenso::make_ready_future(1)
+                                               : dispenso::async(*g->pool, std::launch::async, []() {
+                                                   sim_work(3);
+                                                   return 1;
+                                                 });
+      futs->push_back(ante.then(
+          [s](dispenso::Future<int>&&) {
+            runBody(s);
+            return s.tag;
+          },
+          set));
     } else if (op.kind == A_ASYNC && futs) {
       Spec s = makeSpec(A_ASYNC, 0, 0, false);
       s.nested = 0;
@@ -277,8 +312,8 @@ static std::vector<Op> planOps(int maxOps, int maxBulk, bool allowAsync) {
   int n = range(1, maxOps);
   for (int i = 0; i < n; ++i) {
     Op op;
-    uint32_t r = pick(allowAsync ? 5 : 4);
-    op.kind = r == 4 ? A_ASYNC : A_SCHED + (int)r;
+    uint32_t r = pick(allowAsync ? 6 : 4);
+    op.kind = r == 4 ? A_ASYNC : (r == 5 ? A_THEN : A_SCHED + (int)r);
     op.n = (op.kind == A_BULK || op.kind == A_BULK_FQ) ? range(1, maxBulk) : 1;
     ops.push_back(op);
   }
@@ -468,13 +503,17 @@ static void taskSetProgram(const Params& P) {
           Spec s = makeSpec(A_SCHED, 0, 0, false);
           s.cancels = true;
           s.nested = 0;
+          // fail-fast style: cancel the set, then report the reason by throwing
+          s.throws = P.throwPermille > 0 && chance(1, 2);
           SubmitScope sc(s.tag, s.tag, false);
           try {
             if (ts)
               ts->schedule(Body{s});
             else
               cts->schedule(Body{s});
-          } catch (Tagged&) {
+          } catch (Tagged& e) {
+            g->delivered[(size_t)e.id]++;
+            g->throwsPending--;
           }
         }
         if (ts)
@@ -550,7 +589,10 @@ static void wlCancel() {
 }
 static void wlThrow() {
   static const int rates[] = {150, 30, 500};
-  Params p{oneOf(rates), 0, chance(1, 3), false};
+  // a third of the runs also cancel the set (externally, from a task, or through a parent): a body
+  // that was already running when the set was cancelled and then throws must still be reported
+  int cancelMode = chance(1, 3) ? 1 + (int)pick(3) : 0;
+  Params p{oneOf(rates), cancelMode, chance(1, 3), false};
   taskSetProgram(p);
 }
 static void wlFQ() {
